@@ -134,7 +134,10 @@ def judge(ctx: core.Ctx, case: dict[str, Any]) -> None:
         parts = []
         for t in case["tokens"]:
             if isinstance(t, dict):
-                if t.get("name"):
+                if t.get("src"):
+                    data.update({"lo": 1, "hi": 3, "s2": ".."})
+                    parts.append(t["src"])
+                elif t.get("name"):
                     data[t["name"]] = V.dec(t["v"]) if not isinstance(t["v"], bool) else t["v"]
                     parts.append(t["name"])
                 else:
@@ -318,7 +321,12 @@ def tree_cases(depth: int, rng, limit: int | None):
                 if tok == "A":
                     v = next(it)
                     nm = next(names)
-                    if rng.random() < 0.35:
+                    r = rng.random()
+                    if r < 0.12:
+                        # an atom that is itself a comparison with a range literal or a string containing dots: the parentheses of a
+                        # range and the grouping parentheses around it must not be confused
+                        toks.append({"v": v, "src": rng.choice(["(1..3) contains 2", "(lo..3) contains 3", "s2 == '..'", "(1..hi) contains 1"] if v else ["(1..3) contains 5", "(lo..3) contains 0", "s2 != '..'"])})
+                    elif r < 0.45:
                         # a variable whose Liquid truthiness is the chosen bit but whose Python truthiness may differ (0, "", [] are truthy)
                         val = rng.choice([0, "", [], 0.0, {}, "x", 1, [0], True] if v else [None, False])
                         toks.append({"v": V.enc(val) if not isinstance(val, bool) else val, "name": nm})
